@@ -333,10 +333,10 @@ package jsonapi
 // body reader); ioutil.ReadAll is an arbitrary allocation-only producer of bytes.
 //@ func NewRequest
 //@ flag post-per-return
-//@ props C05
+//@ props C05 C12
 //@ requires req: r != nil
 //@ requires schema: schema != nil && allTypesWf(schema) && uniqueNames(schema) && noIDField(schema) && softSchema(schema) && targetsExist(schema)
-//@ modifies all
+//@ modifies new[URL], new[Params], new[string], new[[]string], new[map[string][]string], new[map[string][]Attr], new[map[string][]Rel], new[Attr], new[Rel], new[[]Rel], new[any], new[map[string]any], new[Filter], new[*Filter], new[uint8], new[time.Time], new[Document], new[payloadSkeleton], new[Error], new[Link], new[map[string]Link], new[map[string]map[string]struct{}], new[map[string]struct{}], new[Resources], new[Resource], new[SoftResource], new[Type], new[map[string]Attr], new[map[string]Rel], new[resourceSkeleton], new[map[string][]uint8], new[map[string]relationshipSkeleton], new[Identifier], new[[]Identifier], new[int], new[int8], new[int16], new[int32], new[int64], new[uint], new[uint16], new[uint32], new[uint64], new[bool], new[[]uint8], $rh, new[Request]
 //@ ensures error-xor-result: (result1 != nil) == (result0 == nil)
 //@ ensures doc-data: result1 == nil && result0.Doc != nil ==> result0.Doc.Data == nil || urOK(result0.Doc.Data, schema) || colOK(result0.Doc.Data, schema)
 //@ ensures doc-included: result1 == nil && result0.Doc != nil ==> (forall k int :: 0 <= k && k < len(result0.Doc.Included) ==> urOK(result0.Doc.Included[k], schema))
